@@ -2,6 +2,7 @@
 # seed sweep on the unchanged tree: every claimed check must exit 0 for every seed
 # usage: tools/sweep.sh "<seeds>" [tier] [props...]
 cd "$(dirname "$0")/.."
+[ -n "$VP_RUN_REPO" ] && export KLEPTO_REPO="$VP_RUN_REPO"
 SEEDS="${1:-0 1 2 3 4}"; TIER="${2:-quick}"; shift; shift
 PROPS="$*"
 [ -z "$PROPS" ] && PROPS=$(python3 -c "import json;print(' '.join(c['property_id'] for c in json.load(open('MANIFEST.json'))['checks']))")
